@@ -301,6 +301,7 @@ Record frule := {
 (* flow.IsValidRule; total_mem = int64(system_metric.TotalMemorySize) *)
 Definition flow_valid (total_mem : Z) (r : frule) : bool :=
   if f_res r =? 0 then false
+  else if negb (f_thr r =? f_thr r)%float then false   (* math.IsNaN *)
   else if (f_thr r <? 0)%float then false
   else if f_tcs r <? 0 then false
   else if f_cb r <? 0 then false
@@ -442,7 +443,7 @@ Definition brk_valid (r : brule) : bool :=
   if b_res r =? 0 then false
   else if b_interval r <=? 0 then false
   else if b_retry r <=? 0 then false
-  else if (b_thr r <? 0)%float then false
+  else if negb (b_thr r =? b_thr r)%float || (b_thr r <? 0)%float then false   (* math.IsNaN(t) || t < 0 *)
   else if (b_strategy r =? 0) && (1 <? b_thr r)%float then false
   else if (b_strategy r =? 1) && (1 <? b_thr r)%float then false
   else true.
@@ -486,7 +487,8 @@ Definition brk_run := run brule brk_valid b_res brk_equal brk_stat_reusable brk_
 Record srule := { s_tag : Z; s_metric : Z (* uint32 *); s_trigger : float; s_strategy : Z (* int32 *) }.
 
 Definition sys_valid (r : srule) : bool :=
-  if (s_trigger r <? 0)%float then false
+  if negb (s_trigger r =? s_trigger r)%float then false   (* math.IsNaN *)
+  else if (s_trigger r <? 0)%float then false
   else if 5 <=? s_metric r then false
   else if (s_metric r =? 4) && (1 <? s_trigger r)%float then false
   else true.
